@@ -194,7 +194,7 @@ func (cf c19Conf) nclass() string {
 	case cf.N <= 129:
 		return "n127-129"
 	}
-	return "n300+"
+	return "n256-300"
 }
 
 // c19Populate creates the original cache and stores the N entries through Exec
@@ -1232,6 +1232,9 @@ func TestVerifC19(t *testing.T) {
 	}
 
 	ns := []int{0, 1, 2, 127, 128, 129, 300}
+	if thorough {
+		ns = []int{0, 1, 2, 127, 128, 129, 256, 257, 300} // also the boundary of the second dump block
+	}
 	lazies := []int{0, 10, 86400}
 	res.Bounds["contents_entries"] = ns
 	res.Bounds["lazy_cache_ttl"] = lazies
